@@ -24,7 +24,7 @@ class Fn:
     """side-car contract of one function of /repo"""
 
     def __init__(self, path, ret=None, requires=(), ensures=(), loops=None, panics=None, valid='true',
-                 closures=None, hints=(), attrs=(), rewrites=(), level='L0', r3_skip=(), inherent=False, outline=False,
+                 closures=None, hints=(), attrs=(), rewrites=(), level='L0', r3_skip=(), inherent=False, outline=False, as_impl=None,
                  shape=None, pre_body='', decreases=None, name_as=None, generics=None, no_unwind=None,
                  sig_sub=(), mut_params=(), float_casts=(), companion=None, rej_clause=True, impl_items=None, trait_requires=False):
         self.impl_items = impl_items
@@ -42,6 +42,7 @@ class Fn:
         self.closures = closures or {}
         self.hints = list(hints)            # (anchor_substring, 'before'|'after'|'body_start'|'body_end', text)
         self.attrs = list(attrs)
+        self.as_impl = as_impl   # R34: a trait's default method monomorphised for one implementor: emitted inside this impl header
         self.outline = outline   # R30: body of a trait-impl method emitted as a free function, the method calls it
         self.rewrites = list(rewrites)      # (old, new, why): function-specific, logged as rule RX
         self.level = level
@@ -196,6 +197,10 @@ class Gen:
         # visibility: everything becomes pub (trait impl methods: none)
         sig = re.sub(r'^pub(\s*\([^)]*\))?\s+', '', sig)
         is_trait_impl = header is not None and re.search(r'\sfor\s', header) is not None
+        if fn.as_impl:
+            self.log.add('R34', fn.path, header, fn.as_impl)
+            header = fn.as_impl
+            is_trait_impl = False
         if fn.inherent and is_trait_impl:
             header = 'impl ' + header.split(' for ', 1)[1]
             is_trait_impl = False
